@@ -346,6 +346,10 @@ def r01c(ck, prog):
                 where = site(prog, c, a.text())
                 ck.inst("R01c", where, "%s prints residue expression %s" % (F.name, a.text()), prog.config)
                 plain = (a0.k in ("ArraySubscriptExpr", "UnaryOperator", "MemberExpr", "DeclRefExpr")) and _seq_origin(F, a0)
+                if not plain and a0.k == "BinaryOperator" and a0.d["op"] in ("+", "-") and a0.ty.replace("const ", "") == "char *":
+                    # a pointer into the row (row + offset) handed to %s / %.*s: the characters are printed as they are
+                    ptrs = [k_ for k_ in a0.kids if k_.strip(casts=True).ty.replace("const ", "") == "char *"]
+                    plain = len(ptrs) == 1 and ptrs[0].strip(casts=True).k in ("DeclRefExpr", "MemberExpr") and bool(_seq_origin(F, ptrs[0].strip(casts=True)))
                 if not plain:
                     ck.violation("R01c", "R01c/%s/print" % F.name, where,
                                  "%s prints %s: a residue must be written unmodified" % (F.name, a.text()), prog.config)
